@@ -154,7 +154,8 @@ Proof. vm_compute. repeat split; reflexivity. Qed.
    patches is overwritten.  Repaired: raises in both modes, the path does not open (checker code 64 = only "does not
    follow the current algorithm").  An observation "raised, the path opens and holds part of the new
    data" (what an overwrite that keeps the old patch_ids.bin leaves behind) violates cl_not_openable and
-   cl_open_exact and follows neither model: flags 0, 1, 5, 6, 7, 8, 9. *)
+   cl_open_exact (flags 1, 5, 9); in parallel mode it follows neither model (flags 0, 6, 7, 8), sequentially
+   it is what the current algorithm's finalize-after-error leaves too (flag 7 only). *)
 Example C09_concrete_overwrite :
   let sc := mk_scen 4 (mk_fault InReader 3 NonFinite) (old_catalog 3) true false false in
   par_all v_fix sc = Some (Raise, TDir false [1; 2; 3] false) /\
@@ -162,6 +163,6 @@ Example C09_concrete_overwrite :
   held_of sc (TDir false [1; 2; 3] true) = HOther /\
   c09_case_held true sc ORaise false false HClosed = 64 /\
   c09_case_held false sc ORaise false false HClosed = 64 /\
-  c09_case_held false sc ORaise false true HOther = 1 + 2 + 32 + 64 + 128 + 256 + 512 /\
+  c09_case_held false sc ORaise false true HOther = 2 + 32 + 128 + 512 /\
   c09_case_held true sc ORaise false true HOther = 1 + 2 + 32 + 64 + 128 + 256 + 512.
 Proof. vm_compute. repeat split; reflexivity. Qed.
